@@ -260,6 +260,9 @@ class ConsumerMdib(mdibbase.MdibBase):
             # process buffered notifications
             with self._buffered_notifications_lock:
                 self._logger.debug('got _buffered_notifications_lock')
+                # compare with the version of the GetMdib response, not with the version that earlier buffered
+                # reports already set: several reports can carry the same mdib version.
+                initial_mdib_version = self.mdib_version
                 for buffered_report in self._buffered_notifications:
                     # buffered data might contain notifications that do not fit.
                     if buffered_report.mdib_version_group.sequence_id != self.sequence_id:
@@ -268,7 +271,7 @@ class ConsumerMdib(mdibbase.MdibBase):
                             buffered_report.mdib_version_group.sequence_id,
                         )
                         continue
-                    if buffered_report.mdib_version_group.mdib_version <= self.mdib_version:
+                    if buffered_report.mdib_version_group.mdib_version <= initial_mdib_version:
                         self.logger.debug(
                             'older mdib version "%d"; ignore buffered report',
                             buffered_report.mdib_version_group.mdib_version,
